@@ -71,7 +71,7 @@ PROPS = {
     'C16': {
         'units': [('contracts/N_fullwidth.vc', None, 'N_fullwidth')],
         'replay': ['c16', 'c16t'],
-        'replay_scope': 'c16: all 1,112,064 Unicode scalar values (exhaustive) + positional independence on 7 mixed strings; c16t (BOUNDED stand-in for the Tantivy clause, own replay crate): 8 models (resources/model.bin + seeded random ones; 40 thorough) x 34 texts (empty, whitespace only, CR/LF, half-width, combining marks, ZWJ emoji, texts without ASCII that contain non-ASCII keys of the normaliser, seeded random; 80 thorough) x 8 wsconst strings x both constructors (new, and deserialize_unchecked from the bytes of a serialised predictor): tokens tile the original text from 0 to its length, offsets on character boundaries, token text = original substring, consecutive positions, breaks exactly where normalise + predict + line-break filter + configured filters break; since round 11 every ordered pair of interesting characters (every character the table changes, its image, all kana, combining and half-width sound marks, joiners, CR, LF): the image of the pair is the character-wise image; since round 15 every character outside printable ASCII, the half-width / full-width forms block and the dash-like characters must map to itself (NUL and the other control characters included)',
+        'replay_scope': 'c16: all 1,112,064 Unicode scalar values (exhaustive) + positional independence on 7 mixed strings; c16t (BOUNDED stand-in for the Tantivy clause, own replay crate): 8 models (resources/model.bin + seeded random ones; 40 thorough) x 34 texts (empty, whitespace only, CR/LF, half-width, combining marks, ZWJ emoji, texts without ASCII that contain non-ASCII keys of the normaliser, seeded random; 80 thorough) x 8 wsconst strings x both constructors (new, and deserialize_unchecked from the bytes of a serialised predictor): tokens tile the original text from 0 to its length, offsets on character boundaries, token text = original substring, consecutive positions, breaks exactly where normalise + predict + line-break filter + configured filters break; since round 11 every ordered pair of interesting characters (every character the table changes, its image, all kana, combining and half-width sound marks, joiners, CR, LF): the image of the pair is the character-wise image; since round 15 every control character (U+0000..U+001F, U+007F..U+009F) must map to itself',
         'not_covered': [
             'the Tantivy token stream (tantivy crate, Arc<dyn SentenceFilter>) is not under contract: its clause is decided by the bounded sweep c16t only (labelled bounded); a text containing NUL makes the adapter panic (Sentence::from_raw rejects it) - not part of the sweep, the statement lists empty / multi-byte / CR-LF texts',
         ],
